@@ -170,7 +170,7 @@ fn dirichlet_slice_agreement(rep: &Report, cases: &[Case], tier: Tier, seed: u64
     macro_rules! go {
         ($F:ty, $c:expr) => {{
             let al: Vec<$F> = $c.params.iter().map(|&a| a as $F).collect();
-            if let Ok(d) = Dirichlet::<$F>::new(&al) {
+            if let Some(d) = crate::exec::ctor_guard(&$c.label, || Dirichlet::<$F>::new(&al).ok()) {
                 let n = al.len();
                 for &s in &seeds {
                     for pos in 0..6usize {
